@@ -511,6 +511,9 @@ func (matrix *DenseReal32Matrix) PermuteRows(pi []int) error {
   if n != m {
     return fmt.Errorf("SymmetricPermutation(): matrix is not a square matrix")
   }
+  if len(pi) != n {
+    return fmt.Errorf("PermuteRows(): permutation vector has invalid length")
+  }
   // permute matrix
   for i := 0; i < n; i++ {
     if pi[i] < 0 || pi[i] > n {
@@ -527,6 +530,9 @@ func (matrix *DenseReal32Matrix) PermuteColumns(pi []int) error {
   if n != m {
     return fmt.Errorf("SymmetricPermutation(): matrix is not a square matrix")
   }
+  if len(pi) != n {
+    return fmt.Errorf("PermuteColumns(): permutation vector has invalid length")
+  }
   // permute matrix
   for i := 0; i < m; i++ {
     if pi[i] < 0 || pi[i] > n {
@@ -542,6 +548,9 @@ func (matrix *DenseReal32Matrix) SymmetricPermutation(pi []int) error {
   n, m := matrix.Dims()
   if n != m {
     return fmt.Errorf("SymmetricPermutation(): matrix is not a square matrix")
+  }
+  if len(pi) != n {
+    return fmt.Errorf("SymmetricPermutation(): permutation vector has invalid length")
   }
   for i := 0; i < n; i++ {
     if pi[i] < 0 || pi[i] > n {
